@@ -41,7 +41,10 @@ mut("rle-no-adjacency", ["C10"], ["R-RLE-DEP"], [(T, "if tile_id == last.tile_id
 mut("leaf-skip-ge", ["C11"], ["R-LEAF-SKIP"], [(R, "if entry.tile_id > range_end {", "if entry.tile_id >= range_end {")])
 mut("drop-contains", ["C11"], ["R-FILTER-GUARD"], [(R, "            if !filter_range.contains(&tile_id) {\n                continue;\n            }\n", "")])
 mut("range-end-unsaturated", ["C11", "C08"], ["R-RANGE-END"], [(R, "Some(val.saturating_sub(1))", "Some(*val - 1)")])
-mut("swap-brotli-zstd-async-dec", ["C12", "C14"], ["R-FACTORY"], [(C, "        Compression::Brotli => Ok(Box::new(AsyncBrotliDecoder::new(BufReader::new(\n            compressed_data,\n        )))),\n        Compression::ZStd => Ok(Box::new(AsyncZstdDecoder::new(BufReader::new(\n            compressed_data,\n        )))),", "        Compression::Brotli => Ok(Box::new(AsyncZstdDecoder::new(BufReader::new(\n            compressed_data,\n        )))),\n        Compression::ZStd => Ok(Box::new(AsyncBrotliDecoder::new(BufReader::new(\n            compressed_data,\n        )))),")])
+mut("swap-brotli-gzip-async-dec", ["C12", "C14"], ["R-FACTORY"], [(C, "        Compression::GZip => Ok(Box::new(AsyncGzipDecoder::new(BufReader::new(\n            compressed_data,\n        )))),\n        Compression::Brotli => Ok(Box::new(AsyncBrotliDecoder::new(BufReader::new(\n            compressed_data,\n        )))),", "        Compression::GZip => Ok(Box::new(AsyncBrotliDecoder::new(BufReader::new(\n            compressed_data,\n        )))),\n        Compression::Brotli => Ok(Box::new(AsyncGzipDecoder::new(BufReader::new(\n            compressed_data,\n        )))),")])
+mut("async-zstd-single-frame", ["C12"], ["R-FACTORY"], [(C, "            decoder.multiple_members(true);\n", "")], "reverts F11: async zstd decoder stops after the first frame, the sync one does not")
+mut("sync-multi-gz", ["C12"], ["R-FACTORY"], [(C, "use flate2::{read::GzDecoder, write::GzEncoder};", "use flate2::{read::MultiGzDecoder as GzDecoder, write::GzEncoder};")], "sync gzip decoder reads every member, the async one only the first")
+mut("sync-zstd-single-frame", ["C12"], ["R-FACTORY"], [(C, "Compression::ZStd => Ok(Box::new(ZSTDDecoder::new(compressed_data)?)),", "Compression::ZStd => Ok(Box::new(ZSTDDecoder::new(compressed_data)?.single_frame())),")], "sync zstd stops after the first frame while the async one (after F11) reads all")
 mut("async-close-to-flush-dir", ["C12", "C15"], ["R-TWIN", "R-FINALISE"], [(D, "[to_async_writer_impl] [cfg(feature=\"async\")] [(impl AsyncWrite + Unpin + Send)] [compress_async] [close]", "[to_async_writer_impl] [cfg(feature=\"async\")] [(impl AsyncWrite + Unpin + Send)] [compress_async] [flush]")])
 mut("async-header-read-short", ["C13", "C12"], ["R-XFER", "R-HDR-IO"], [(H, "        input.read_exact(&mut buf).await?;", "        input.read(&mut buf).await?;")])
 mut("flush-ok-swallowed", ["C15"], ["R-RESULT-USED"], [(C, "        writer.flush()?;\n    }\n\n    Ok(destination)", "        writer.flush().ok();\n    }\n\n    Ok(destination)")])
@@ -55,7 +58,7 @@ mut("empty-check-after-remove", ["C19"], ["R-REJ-EMPTY"], [(T, "        let vec:
 mut("drop-len0-writer", ["C19", "C05"], ["R-LEN0"], [(D, "            if entry.length == 0 {\n                return Err(std::io::Error::new(\n                    std::io::ErrorKind::InvalidData,\n                    \"Length of a directory entry must be greater than 0.\",\n                ));\n            }\n            write_varint([writer], [entry.length])?;", "            write_varint([writer], [entry.length])?;")])
 mut("meta-accept-null", ["C19"], ["R-REJ-META"], [(P, "        let JSONValue::Object(map) = val else {\n            return Err(std::io::Error::new(\n                std::io::ErrorKind::InvalidData,\n                \"PMTiles' metadata must be JSON Object\",\n            ));\n        };\n\n        Ok(map)", "        match val {\n            JSONValue::Object(map) => Ok(map),\n            JSONValue::Null => Ok(JSONMap::new()),\n            _ => Err(std::io::Error::new(\n                std::io::ErrorKind::InvalidData,\n                \"PMTiles' metadata must be JSON Object\",\n            )),\n        }")])
 mut("drop-take", ["C20"], ["R-BOUNDED-READ"], [(P, "let mut meta_data_reader = (&mut input).take(header.json_metadata_length);", "let mut meta_data_reader = (&mut input).take(u64::MAX);")])
-mut("eager-first-tile", ["C20"], ["R-LAZY"], [(P, "        Ok(Self {\n            tile_type: header.tile_type,", "        let _ = add_await([tile_manager.get_tile(0)])?;\n\n        Ok(Self {\n            tile_type: header.tile_type,"), (P, "read_meta_data       from_reader;", "read_meta_data       from_reader         get_tile;"), (P, "[read_meta_data]       [from_reader];", "[read_meta_data]       [from_reader]       [get_tile];"), (P, "[read_meta_data_async] [from_async_reader];", "[read_meta_data_async] [from_async_reader] [get_tile_async];")])
+mut("eager-first-tile", ["C20"], ["R-LAZY"], [(P, "        Ok(Self {\n            tile_type: header.tile_type,", "        let _ = add_await([tile_manager.get_tile(0)])?;\n\n        Ok(Self {\n            tile_type: header.tile_type,"), (P, "read_meta_data         from_reader;", "read_meta_data         from_reader         get_tile;"), (P, "[read_meta_data]       [from_reader];", "[read_meta_data]       [from_reader]       [get_tile];"), (P, "[read_meta_data_async] [from_async_reader];", "[read_meta_data_async] [from_async_reader] [get_tile_async];")])
 
 def main():
     if os.path.isdir(OUT):
